@@ -12,7 +12,10 @@ EXTENDS PlanarImpl, PlanarPairs, TraceBase, SequencesExt
 
 \* the L1 answer: the one TLC generated (field exp), re-derived from the witness-grid
 \* definition for the events marked chk (a sample; the derivation costs four masks)
-ExpL1(e) == IF "chk" \in DOMAIN e
+PG == INSTANCE PlanarGeneral
+ExpL1(e) == IF "chkg" \in DOMAIN e       \* general-slope universe: the definition of PlanarGeneral
+            THEN B2S(IF e.op = "con" THEN PG!ContainsG(e.A0, e.B0) ELSE PG!IntersectsG(e.A0, e.B0))
+            ELSE IF "chk" \in DOMAIN e
             THEN B2S(IF e.op = "con" THEN Contains(e.A0, e.B0) ELSE Intersects(e.A0, e.B0))
             ELSE B2S(e.exp)
 GotStr(e) == IF e.out = "ok" THEN B2S(e.got) ELSE IF e.runaway THEN "runaway" ELSE "panic"
